@@ -15,7 +15,7 @@ PID = 'C17'
 LEVEL = 'model_checking'
 
 
-def prepare(_):
+def prepare(tier):
     """throw-away process: build the event menu with the library's own geometry (one point per face x triangle x {inside, near edge})"""
     import a5
     from a5.core.cell import _dodecahedron
@@ -54,11 +54,11 @@ def prepare(_):
     # the schedule explorer's site counter, calls of the estimate helper that do not come from the first pass
     from vf import sched as _sched
     prefix = os.path.dirname(os.path.realpath(a5.__file__)) + os.sep
-    need2 = {3: [], 9: []}
+    need2 = {3: [], 9: []} if tier == 'thorough' else {3: []}
     cand = []
     for sgn in (1, -1):
         for i in range(60):
-            for d in (9.5, 7.3, 5.1, 2.7, 0.9, 0.2):
+            for d in ((9.5, 7.3, 5.1, 2.7, 0.9, 0.2) if tier == 'thorough' else (7.3, 2.7, 0.9)):
                 cand.append(((i * 6.0 + d) % 360 - 180, sgn * (90.0 - d)))
     for r in need2:
         for pt in cand:
@@ -249,7 +249,7 @@ def run(tier, t0):
         acc.notes.append('phase %s: %.1fs' % (name, _t.time() - _tp[0]))
         _tp[0] = _t.time()
 
-    k = many(prepare, [None])[0]
+    k = many(prepare, [tier])[0]
     full = build_menu(k)
     by_name = {ev[0]: ev for ev in full}
     phase('prepare')
@@ -311,6 +311,8 @@ def run(tier, t0):
         'by_kind_then_face_desc': sorted(names, key=lambda n: (n.split(':')[0], tuple(-ord(c) for c in n))),
         'interleaved': [n for pair in zip(sorted(names)[::2], sorted(names, reverse=True)[::2]) for n in pair],
     }
+    if tier == 'quick':
+        orders = {kk: orders[kk] for kk in ('sorted', 'interleaved')}
     sat_tasks = [([by_name[n] for n in order], full, expected) for order in orders.values()]
     for (oname, order), res in zip(orders.items(), many(history.expand, sat_tasks)):
         record(list(order), full, res, label=f'<saturation:{oname}>')
@@ -318,12 +320,12 @@ def run(tier, t0):
     phase('saturation')
     # ---- BFS depth 2 (and 3 on a sub-menu) with state-hash deduplication
     if tier == 'quick':
-        menu2 = build_menu(k, faces={0, 6, 11}, tris={0, 9})
+        menu2 = build_menu(k, faces={0, 11}, tris={0, 9})
     else:
         menu2 = full
     sub = [ev for ev in menu2 if ev[0].split(':')[0] in ('lonlat_to_cell', 'cell_to_boundary')
            and any(t in ev[0] for t in ('f00t0', 'f00t9', 'f01t0', 'f01t9', 'f11t0', 'f11t9', 'f06t4'))]
-    sub = sub[:24 if tier == 'quick' else 40] + pure_menu(k)[:3]
+    sub = sub[:16 if tier == 'quick' else 40] + pure_menu(k)[:3]
     sub += [ev for ev in menu2 if ev[0].startswith('cell_to_children:quad') or ev[0].startswith('error:') or ev[0].startswith('uncompact') or ev[0].startswith('cell_to_boundary:default') or ev[0].startswith('cell_to_boundary:empty') or ev[0].startswith('cell_to_boundary:only')]
     sub += [ev for ev in menu2 if ev[0].startswith('low:') and 'f00t1' in ev[0]]
     subnames = {ev[0] for ev in sub}
@@ -408,7 +410,9 @@ def run(tier, t0):
     # ---- fault enumeration: every abort point of selected calls, then probe calls
     ab_events = [by_name[n] for n in ABORT_EVENTS + ABORT_PURE if n in by_name]
     probes = ab_events[:8] + [by_name[n] for n in ['lonlat_to_cell:f03t1in', 'cell_to_boundary:f03t3in', 'cell_to_children'] + ABORT_PURE if n in by_name]
-    cap = (4, 2) if tier == 'quick' else None
+    cap = (3, 1) if tier == 'quick' else None
+    if tier == 'quick':
+        ab_events = [e for e in ab_events if e[0] not in ('cell_to_boundary:f07t5in', 'low:cell_to_boundary:auto:r0:f11t6', 'cell_to_boundary:default_r7', 'compact:plain')]
     ab_tasks = [(ev, probes, {p[0]: expected[p[0]] for p in probes}, cap, (3, i)) for ev in ab_events for i in range(3 if ev[0] not in ABORT_PURE else 1)]
     ab_tasks = [t if t[0][0] not in ABORT_PURE else (t[0], t[1], t[2], t[3], None) for t in ab_tasks]
     for name, out, skipped in many(abort_explore, ab_tasks):
@@ -433,8 +437,8 @@ def run(tier, t0):
     acc.sample({'pristine_state_hash': h0, 'distinct_states': len(seen)})
     rule = (f'event menu of {len(full)} public calls (12 faces x 10 triangles x inside/near-edge x lonlat_to_cell, cell_to_boundary, cell_to_lonlat + 18 other calls, mutate-the-result variants); '
             f'all histories of length 1 over the menu, length 2 over {len(menu2)} events, length 3 over {len(sub)} events (extended only from histories that reached a new library state), '
-            'and 4 saturation histories (whole menu in 4 orders, then every event again); tie clusters; fault enumeration: 20 calls aborted by an injected exception at every line event '
-            '(quick: first 4 / last 2 occurrences per site) followed by 16 probe calls; a state is the canonical hash of everything reachable from the a5 module globals')
+            'and 4 (quick: 2) saturation histories (whole menu in different orders, then every event again); tie clusters; fault enumeration: 20 calls aborted by an injected exception at every line event '
+            '(quick: first 3 / last 1 occurrences per site, 16 calls) followed by 16 probe calls; a state is the canonical hash of everything reachable from the a5 module globals')
     return common.finish(PID, LEVEL, tier, acc, t0, rule, [
         'the oracle value of an event is the value of the single call in a process forked from a pristine import; 16 of them per run are compared with genuinely fresh interpreters',
         'state identity = sha1 of a generic canonical walk over all a5 module globals and reachable instance dicts (dicts sorted, floats by hex); histories reaching a seen state are not extended',
@@ -451,7 +455,7 @@ def replay(case):
             out[i] = res
         return out
     if 'abort' in case:
-        k = many(prepare, [None])[0]
+        k = many(prepare, ['thorough'])[0]
         full = build_menu(k)
         by_name = {ev[0]: ev for ev in full}
         _, lvl1, _ = many(history.expand, [([], full, None)])[0]
@@ -467,7 +471,7 @@ def replay(case):
         _, lvl1, _ = many(history.expand, [([], [ev], None)])[0]
         _, outs, _ = many(history.expand, [([byn[n] for n in case['history']], [ev], None)])[0]
         return [('c17:' + case['event'], 'value differs from the pristine single call')] if outs[0][1] != lvl1[0][1] else []
-    k = many(prepare, [None])[0]
+    k = many(prepare, ['thorough'])[0]
     full = build_menu(k)
     by_name = {ev[0]: ev for ev in full}
     ev = by_name[case['event']]
